@@ -1,5 +1,5 @@
 """C16 proposer selection: ValSet.tla exhaustively model-checked; every edge of the state graphs of the small
-configurations, simulated behaviours of the larger ones and TLC's counterexample of the reload witness are
+configurations and simulated behaviours of the larger ones are
 replayed on the real types.ValidatorSet, which is also measured against direct oracles (batched == repeated,
 proportional windows, replica determinism, copy independence, State.Save/LoadState round trip)."""
 import copy
@@ -13,9 +13,9 @@ WORKERS = int(os.environ.get('VERIF_TLC_WORKERS') or 8)
 
 # name: (cfg file, number of ids)
 CFGS = {
-    'g1': ('MC_ValSet_g1.cfg', 2), 'g2': ('MC_ValSet_g2.cfg', 2), 'g3': ('MC_ValSet_g3.cfg', 3),
+    'g1': ('MC_ValSet_g1.cfg', 2), 'g2': ('MC_ValSet_g2.cfg', 2), 'g3': ('MC_ValSet_g3.cfg', 3), 'g4': ('MC_ValSet_g4.cfg', 3),
     'q': ('MC_ValSet_q.cfg', 2), 'n3': ('MC_ValSet_n3.cfg', 3), 'c3': ('MC_ValSet_c3.cfg', 3),
-    'n4': ('MC_ValSet_n4.cfg', 4), 'reload': ('MC_ValSet_reload.cfg', 2),
+    'n4': ('MC_ValSet_n4.cfg', 4),
 }
 
 
@@ -32,7 +32,7 @@ def nontrivial(tr):
     return False
 
 
-def witness_trace(r):
+def witness_trace(r):  # kept for replaying a TLC counterexample by hand
     """TLC counterexample [(label, state)] -> behaviour."""
     steps = []
     init = None
@@ -57,9 +57,9 @@ def run(ctx, replay=None):
         return
 
     quick = ctx.tier == 'quick'
-    exhaustive = ['g1', 'g2', 'g3', 'q', 'n3'] if quick else ['g1', 'g2', 'g3', 'q', 'n3', 'c3', 'n4']
-    graph_cfgs = ['g1', 'g2', 'g3']
-    sim_cfgs = [('n4', 120, 30), ('c3', 120, 30), ('n3', 100, 40)] if quick else \
+    exhaustive = ['g1', 'g2', 'g3', 'g4', 'q'] if quick else ['g1', 'g2', 'g3', 'g4', 'q', 'n3', 'c3', 'n4']
+    graph_cfgs = ['g1', 'g2', 'g3', 'g4'] if quick else ['g1', 'g2', 'g3', 'g4', 'q']
+    sim_cfgs = [('n4', 100, 30), ('c3', 100, 30), ('n3', 100, 40)] if quick else \
                [('n4', 600, 40), ('c3', 600, 40), ('n3', 400, 50), ('q', 200, 40)]
     all_traces = []
     for name in exhaustive:
@@ -87,22 +87,6 @@ def run(ctx, replay=None):
                 t['id'] = 'graph-%s-%d' % (name, k)
                 all_traces.append(t)
         tlc.cleanup(r)
-
-    # witness: the persistence round trip is expected to change the proposer (spec mirrors the code); TLC's
-    # shortest counterexample of ReloadPreservesProposer is replayed on the real code
-    cfgfile, n = CFGS['reload']
-    r = tlc.run(SPEC, 'MC_ValSet.tla', cfgfile, workers=1, timeout=300)
-    ctx.cov['tlc_runs'].append(dict(r.summary(), name='ValSet/reload-witness', exhaustive=False))
-    if r.violation == 'ReloadPreservesProposer' and r.trace:
-        t = witness_trace(r)
-        t['cfg'] = {'N': n}
-        t['id'] = 'witness-reload'
-        all_traces.append(t)
-        ctx.cov['reload_witness'] = ['%s%s' % (s['a'], s['args']) for s in t['steps']]
-    elif r.ok:
-        ctx.notes.append('the specification no longer admits a reload that changes the proposer')
-    else:
-        ctx.inconclusive.append('reload witness run failed: %s' % (r.error or r.violation))
 
     for name, num, depth in sim_cfgs:
         cfgfile, n = CFGS[name]
@@ -142,7 +126,7 @@ def run(ctx, replay=None):
     ctx.cov['evaluations'] = rep['steps']
     ctx.cov['distinct_nontrivial'] = nt
     ctx.cov['rule'] = ('behaviours = edge-cover paths of the dumped state graphs (every transition once) + tlc -simulate '
-                       'behaviours + the reload counterexample; distinct by construction; non-trivial = contains a batched '
+                       'behaviours; distinct by construction; non-trivial = contains a batched '
                        'increment, a successful Add/Update/Remove, a copy or a persistence round trip')
     ctx.cov['impl_checks'] = rep['checks']
     ctx.cov['driver_counters'] = rep.get('counters', {})
